@@ -32,7 +32,7 @@ impl Copy for Span {}
 
 // ---------------------------------------------------------------- Ident / Index / Member (mirrors syn)
 #[verifier::external_body]
-pub struct Ident { _p: core::marker::PhantomData<()> }
+pub struct Ident { _p: ::core::marker::PhantomData<()> }
 
 impl Ident {
     pub uninterp spec fn name(&self) -> Seq<char>;
@@ -116,8 +116,12 @@ pub fn mk_f_ident<T: IdentFragment>(e: &T) -> (r: Ident)
 #[verifier::external_body]
 #[verifier::reject_recursive_types(T)]
 #[verifier::reject_recursive_types(P)]
-pub struct Punctuated<T, P> { _p: core::marker::PhantomData<(T, P)> }
-impl<T, P> Punctuated<T, P> { pub uninterp spec fn ptoks(&self) -> Seq<Tok>; }
+pub struct Punctuated<T, P> { _p: ::core::marker::PhantomData<(T, P)> }
+impl<T, P> Punctuated<T, P> {
+    pub uninterp spec fn ptoks(&self) -> Seq<Tok>;
+    // the elements, in order
+    pub uninterp spec fn pseq(&self) -> Seq<T>;
+}
 impl<T, P> ToTokens for Punctuated<T, P> {
     open spec fn toks(&self) -> Seq<Tok> { self.ptoks() }
     #[verifier::external_body]
@@ -131,7 +135,7 @@ impl<T, P> Clone for Punctuated<T, P> {
 }
 
 #[verifier::external_body]
-pub struct Path { _p: core::marker::PhantomData<()> }
+pub struct Path { _p: ::core::marker::PhantomData<()> }
 impl Path { pub uninterp spec fn ptoks(&self) -> Seq<Tok>; }
 impl ToTokens for Path {
     open spec fn toks(&self) -> Seq<Tok> { self.ptoks() }
@@ -146,7 +150,7 @@ impl Clone for Path {
 }
 
 #[verifier::external_body]
-pub struct Generics { _p: core::marker::PhantomData<()> }
+pub struct Generics { _p: ::core::marker::PhantomData<()> }
 impl Generics { pub uninterp spec fn ptoks(&self) -> Seq<Tok>; }
 impl ToTokens for Generics {
     open spec fn toks(&self) -> Seq<Tok> { self.ptoks() }
@@ -157,7 +161,7 @@ impl ToTokens for Generics {
 }
 
 #[verifier::external_body]
-pub struct AngleBracketedGenericArguments { _p: core::marker::PhantomData<()> }
+pub struct AngleBracketedGenericArguments { _p: ::core::marker::PhantomData<()> }
 impl AngleBracketedGenericArguments { pub uninterp spec fn ptoks(&self) -> Seq<Tok>; }
 impl ToTokens for AngleBracketedGenericArguments {
     open spec fn toks(&self) -> Seq<Tok> { self.ptoks() }
@@ -172,13 +176,13 @@ impl Clone for AngleBracketedGenericArguments {
 }
 
 #[verifier::external_body]
-pub struct WherePredicate { _p: core::marker::PhantomData<()> }
+pub struct WherePredicate { _p: ::core::marker::PhantomData<()> }
 
 } // verus!
 
 verus! {
 #[verifier::external_body]
-pub struct SynType { _p: core::marker::PhantomData<()> }
+pub struct SynType { _p: ::core::marker::PhantomData<()> }
 impl SynType { pub uninterp spec fn ptoks(&self) -> Seq<Tok>; }
 impl ToTokens for SynType {
     open spec fn toks(&self) -> Seq<Tok> { self.ptoks() }
